@@ -204,7 +204,7 @@ func stripComment(s string) string {
 	return s
 }
 
-var hdrRe = regexp.MustCompile(`^(\(.*?\)\.[A-Za-z_0-9$]+(?:@\S+)?|[^\s(]+)\s*\(([^()]*)\)\s*(?:\(([^()]*)\))?$`)
+var hdrRe = regexp.MustCompile(`^(\(.*?\)\.[A-Za-z_0-9$]+(?:@[^\s(]+)?|[^\s(]+)\s*\(([^()]*)\)\s*(?:\(([^()]*)\))?$`)
 var inRepoHdrRe = regexp.MustCompile(`^(?:\(\s*([A-Za-z_0-9]*)\s*(\*?)\s*([A-Za-z_0-9]+(?:\[[^\]]*\])?)\s*\)\s*)?([A-Za-z_0-9$]+)\s*\(([^()]*)\)\s*(?:\(([^()]*)\))?$`)
 
 func splitNames(s string) []string {
